@@ -786,6 +786,7 @@ func mutate(r *rng, s []byte, alpha []byte) []byte {
 func propC08(r *Run) {
 	thorough := r.tier == "thorough"
 	r.exhaustive = true
+	c08Strand(r)
 
 	// (1) Apply: every form, offsets -4..4, pairs over a small window (both orientations, empty pairs)
 	for _, m := range allMods(1) {
@@ -970,5 +971,54 @@ func propC08(r *Run) {
 	for _, s := range []string{"", "@", "@@", "^@^", "@^", "gene@", "gene@@^", "gene@^@$", "5@^+1@$-1", "@^@$", "^..$@^@^", "3..5x", "12abc", "3..", "<3..5", "3..>5>", "complement(3..5", "complement(complement(3..5))",
 		"complement(7)", "^..$@^..$", "/", "//", "gene/", "gene//note=a", "gene/note=a/product=b", `ge\/ne/note`, "gene/note=(", "gene/=a", "5@$-1..$", "^+1x"} {
 		c08LocatorString(r, s, genSeq(r.rng, 12, 5, 1))
+	}
+}
+
+// c08Strand: "either strand": the complement of a region reads the same residues in the
+// opposite order on the opposite strand — for every number of segments (odd and even) and one
+// level of nesting; this is what makes ^ the 5' end in the direction of the strand.
+func c08Strand(r *Run) {
+	n := 1500
+	if r.tier == "thorough" {
+		n = 15000
+	}
+	for t := 0; t < n; t++ {
+		k := 1 + t%5
+		segs := make(gts.Regions, 0, k)
+		pos := r.rng.intn(3)
+		for j := 0; j < k; j++ {
+			ln := r.rng.rangeInt(1, 4)
+			var el gts.Region = gts.Segment{pos, pos + ln}
+			if r.rng.intn(3) == 0 {
+				el = gts.Segment{pos + ln, pos}
+			}
+			if r.rng.intn(6) == 0 {
+				el = gts.Regions{gts.Segment{pos, pos + 1}, gts.Segment{pos + ln + 1, pos + ln + 2}}
+				pos++
+			}
+			segs = append(segs, el)
+			pos += ln + r.rng.intn(3)
+		}
+		var reg gts.Region = segs
+		line := "reg.complement " + encReg(reg)
+		out := r.op(line)
+		r.count(fmt.Sprintf("strand/segments%d", k))
+		if out == "PANIC" {
+			r.fail(Failure{Oracle: "complement of a region never panics", Op: line, Got: out})
+			continue
+		}
+		d := implRegDen(reg)
+		c := implRegDen(reg.Complement())
+		r.eval(line, len(d) > 0)
+		ok := len(c) == len(d)
+		for x := 0; ok && x < len(d); x++ {
+			if c[len(d)-1-x].x != d[x].x || c[len(d)-1-x].rev == d[x].rev {
+				ok = false
+			}
+		}
+		if !ok {
+			r.fail(Failure{Oracle: "the complement of a region reads the same residues in the opposite order on the opposite strand", Op: line,
+				Got: encReg(reg.Complement()) + " den=" + denStr(c), Want: "reverse of " + denStr(d)})
+		}
 	}
 }
